@@ -14,10 +14,12 @@
 import NutsProofs.Lemmas.ComposeDag
 import NutsModel.C06.Cfg
 import NutsProofs.Props.C08
+import NutsProofs.Props.C07
 
 namespace Nuts.Compose.Dag.Props
 open Nuts Nuts.Compose.Dag
 open Nuts.C08.Props (cfg NB cfg_good Observables Reachable)
+open Nuts.Proto Nuts.Proto.L Nuts.Proto.Live
 
 /-- a fold of C08 `add`s from the empty store is one of C08's reachable states -/
 theorem reachable_build (w : Wire) : ∀ (l : List C06.Tx), Reachable (build cfg w l : C08.State NB) := by
@@ -138,4 +140,152 @@ example : (Ex.ds.map fun d => (deliver6 Ex.adm (run6 Ex.adm [.tx Ex.root (some 1
 example : (run6 Ex.adm Ex.ds).txs = [Ex.child, Ex.root] := by decide
 example : (Node.run Ex.adm cfg Ex.wire Ex.ds : Node NB).dg.disk.txs = [embTx Ex.wire Ex.root, embTx Ex.wire Ex.child] := by decide
 example : (C08.xorAt (Node.run Ex.adm cfg Ex.wire Ex.ds : Node NB).dg 0).1 = 11 ^^^ 12 := by decide
+/-! ### target 4 — the gossip protocol (C07) over C06 ∘ C08-reachable nodes -/
+
+/-- **Every admitted DAG is a valid DAG of the protocol model.** After ANY sequence of deliveries the protocol's view of
+    C06's admitted list satisfies C07's `DagOK` (good verdict, no duplicate, prevs present before, clock = `expectedClock`,
+    one root) — the hypothesis `DagOK` of `safety_any_schedule`, `round_progress`, `converges` is discharged by C06. -/
+theorem admitted_view_is_valid_dag (a : Adm) (w : Wire) (ds : List Delivery) :
+    DagOK (view w a.env (run6 a ds)) := by
+  have h : ∀ (ds : List Delivery) (s : C06.St), C06.Inv a.env s → C06.Inv a.env (ds.foldl (step6 a) s) := by
+    intro ds
+    induction ds with
+    | nil => intro s h; exact h
+    | cons d t ih => intro s h; exact ih _ (inv_deliver6 a h d)
+  exact dagOK_view w a.env _ (h ds {} (C06.inv_empty a.env)).chain
+
+/-- **The two models of `state.Add`'s decision agree** (C06 `add` vs C07 `addCheck`), in EVERY state and for every
+    transaction and payload: the protocol model admits exactly what the admission model stores. -/
+theorem add_decisions_agree (a : Adm) (w : Wire) (s : C06.St) (tx : C06.Tx) (p : Option Nat) :
+    addCheck (view w a.env s) (viewTx w a.env tx) (p.map (viewPayload a.env.sha)) = .added ↔
+      (C06.add a.env a.subs s tx p).1.txs = tx :: s.txs :=
+  addCheck_added_iff w a.env a.subs s tx p
+
+/-- **The digests the protocol exchanges are C08's digests of C06's admitted set.** Along every delivery history (refs
+    SHA-256 values), with `d7` the protocol's view of the admitted list:
+    * the `(xor, clock)` pair a node gossips / answers `State` with — C07's abstract `xorOf d7`, `lcOf d7` — is what C08's
+      `XOR(c)` returns for every `c` at or above the highest clock;
+    * the IBLT C08's `IBLT(c)` returns for EVERY clock `c` is the IBLT of exactly the ref set C07 abstracts it as
+      (`ibltSet`, same page size);
+    * C06's own copies (`xor`, `lcHigh`, `count`) are the same values;
+    * and what C08 alone stores determines the same DAG skeleton (ref, clock, prevs) as C06's list. -/
+theorem gossip_digests_are_c08_digests (a : Adm) (w : Wire) (cfg7 : Proto.Cfg) (hps : cfg7.pageSize = cfg.pageSize)
+    (ds : List Delivery) (hs : ∀ d ∈ ds, Small d.ref) :
+    let nd : Node NB := Node.run a cfg w ds
+    let d7 := view w a.env nd.st
+    (∀ c, lcOf d7 ≤ c → C08.xorAt nd.dg c = (embRef (xorOf d7), lcOf d7)) ∧
+    (∀ c, (C08.ibltAt nd.dg c).1 = ibltOfSet NB w (ibltSet cfg7 d7 c)) ∧
+    (nd.st.xor = xorOf d7 ∧ nd.st.lcHigh = lcOf d7 ∧ nd.st.count = d7.length ∧ nd.dg.disk.count = d7.length) ∧
+    (viewOfDigests nd.dg).map skeleton = d7.map skeleton := by
+  intro nd d7
+  have hok : NodeOK a cfg w nd := NodeOK.run ds (NodeOK.init a cfg w) hs
+  obtain ⟨hsinv, hrel⟩ := hok.sinv cfg_good
+  have m := admitted_stream_digests a w ds hs
+  simp only at m
+  obtain ⟨_, _, htxs, hr, ob⟩ := m
+  have hlc : nd.dg.mem.lcHigh = lcOf d7 := by
+    rw [ob.lcMem]; show C08.maxClock (embList w nd.st.txs) = _
+    rw [maxClock_embList]; exact (lcOf_view w a.env nd.st.txs).symm
+  have hinv := hok.1.inv
+  refine ⟨?_, ?_, ⟨?_, ?_, ?_, ?_⟩, ?_⟩
+  · intro c hc
+    have hd := C08.Props.diagnostics_spec hr
+    have hroot : nd.dg.mem.xorTree.rootData C08.xorOps = embRef (xorOf d7) := by
+      have := congrArg (·.1) hd
+      simp only [C08.diagnostics] at this
+      rw [this, htxs]
+      show C08.specAll C08.xorOps (C08.refClocks (embList w nd.st.txs)) = _
+      rw [specAll_xor_embList]
+      exact congrArg embRef (xorOf_view w a.env nd.st.txs).symm
+    unfold C08.xorAt
+    have : ¬ c < lcOf d7 := by omega
+    simp only [hroot, hlc, this, if_false]
+  · intro c
+    rw [ob.iblt c]
+    show C08.specUpTo (C08.ibltOps NB) cfg.pageSize (C08.keyClocks (embList w nd.st.txs)) c = _
+    rw [← hps]
+    exact iblt_of_ibltSet NB w a.env cfg7 c nd.st.txs
+  · rw [hinv.xor]; exact (xorOf_view w a.env nd.st.txs).symm
+  · rw [hinv.lcHigh]; exact (lcOf_view w a.env nd.st.txs).symm
+  · rw [hinv.count]; simp [d7, view]
+  · rw [ob.count]; simp [d7, nd, view, embSet, embList]
+  · refine skeleton_view w a.env hrel ?_
+    intro t ht p hp
+    obtain ⟨u, hu, hru, _⟩ := (C06.chain_mem hinv.chain t ht).1 p hp
+    rw [← hru]; exact hrel.small u hu
+
+/-- **Convergence for nodes whose DAGs are C06-admitted (and hence carry C08's digests).** Two protocol nodes whose
+    DAGs are the views of what C06 admitted along ANY two delivery histories (same resolver) converge under C07's fair
+    round pairs to the union — C07's `converges` with its `DagOK` hypotheses discharged by C06. What is still assumed is
+    exactly what C07 states and neither C06 nor C08 provides: the decode and sort contracts (`Hyp`), XOR faithfulness on
+    `U` (`hxf`: no two valid sub-DAGs of `U` with different content and equal XOR — a collision assumption on SHA-256
+    values, about which C08 only says that the XOR exchanged IS the XOR of the stored set), the universe `U` with
+    unique refs holding both DAGs and its root in both, and the node bookkeeping invariants (`NI`: payload store sound,
+    every public transaction HAS its payload — not provided by C06's `Add`, see `public_payload_not_provided_by_add` —,
+    gossip queues in sync; `Linked`). -/
+theorem converges_for_admitted_dags {cfg7 : Proto.Cfg} {env7 : Proto.Env} (H : Hyp cfg7 env7)
+    (adm : Adm) (w : Wire) (dsA dsB : List Delivery) (U : List Proto.Tx)
+    (hU : ∀ t ∈ U, ∀ t' ∈ U, t.ref = t'.ref → t = t')
+    (hxf : ∀ d d' : List Proto.Tx, DagOK d → DagOK d' → (∀ t ∈ d, t ∈ U) → (∀ t ∈ d', t ∈ U) → xorOf d' = xorOf d → ∀ t ∈ d', t ∈ d)
+    (pA pB : Peer) (fuel : Nat) (hfuel : pageOf cfg7 (lcOf U) + 3 ≤ fuel) (a b : Proto.Node)
+    (hda : a.dag = view w adm.env (run6 adm dsA)) (hdb : b.dag = view w adm.env (run6 adm dsB))
+    (nia : NI a) (nib : NI b) (ua : ∀ t ∈ a.dag, t ∈ U) (ub : ∀ t ∈ b.dag, t ∈ U)
+    (ra : ∀ t ∈ U, t.prevs = [] → t ∈ a.dag) (rb : ∀ t ∈ U, t.prevs = [] → t ∈ b.dag)
+    (la : Linked a pB.key) (lb : Linked b pA.key)
+    (k : Nat) (hk : 2 * U.length < a.dag.length + b.dag.length + k) :
+    (∀ t, t ∈ (roundPairs cfg7 env7 pA pB fuel k (a, b)).1.dag ↔ (t ∈ a.dag ∨ t ∈ b.dag)) ∧
+    (∀ t, t ∈ (roundPairs cfg7 env7 pA pB fuel k (a, b)).2.dag ↔ (t ∈ a.dag ∨ t ∈ b.dag)) ∧
+    DagOK (roundPairs cfg7 env7 pA pB fuel k (a, b)).1.dag ∧ DagOK (roundPairs cfg7 env7 pA pB fuel k (a, b)).2.dag := by
+  have oka : DagOK a.dag := by rw [hda]; exact admitted_view_is_valid_dag adm w dsA
+  have okb : DagOK b.dag := by rw [hdb]; exact admitted_view_is_valid_dag adm w dsB
+  exact Nuts.C07.Props.converges H U hU hxf pA pB fuel hfuel a b ⟨nia, nib, oka, okb, ua, ub, ra, rb, la, lb⟩ k hk
+
+
+
+/-! ### where the seams do not close by themselves (witnesses) -/
+
+/-- **Seam C06/C08 (ref width).** C06 models a ref as an unbounded `Nat` (`Hdr.ref`: "SHA-256 of the input bytes (supplied)"),
+    C08 as `BitVec 256`. Without the hypothesis `Small` the composition fails: the admission model stores two transactions
+    whose refs differ by `2^256`, the digest model takes the second for a duplicate of the first. (No statement about the
+    Go code — a real ref is 32 bytes; it is the reason every theorem above assumes `Small`.) -/
+theorem small_refs_needed :
+    ¬ Small (2 ^ 256 + 11) ∧ embRef (2 ^ 256 + 11) = embRef 11 ∧
+    (Node.run Ex.adm cfg Ex.wire [.tx Ex.root (some 1), .tx (Ex.mk (2 ^ 256 + 11) 1 [11] 102) none] : Node NB).st.txs.length = 2 ∧
+    (Node.run Ex.adm cfg Ex.wire [.tx Ex.root (some 1), .tx (Ex.mk (2 ^ 256 + 11) 1 [11] 102) none] : Node NB).dg.disk.txs.length = 1 := by
+  decide
+
+/-- **Seam C06/C07 (payload of a public transaction).** C07's liveness invariant `NI` contains `PubHave`: every public
+    transaction (empty PAL) on the DAG has its payload in the store. C06's `Add` does not provide it: it admits a public
+    transaction delivered WITHOUT payload (only the TransactionList door `handleList` refuses that), so a protocol node
+    mirroring such a C06 state violates `PubHave` — `converges_for_admitted_dags` has to keep `NI` as a hypothesis. -/
+theorem public_payload_not_provided_by_add :
+    (deliver6 Ex.adm {} (.tx Ex.root none)).2 = .ok () ∧ (run6 Ex.adm [.tx Ex.root none]).payloads = [] ∧
+    ¬ PubHave { (default : Proto.Node) with dag := view Ex.wire Ex.env (run6 Ex.adm [.tx Ex.root none]), payloads := [] } := by
+  refine ⟨by decide, by decide, ?_⟩
+  intro h
+  have := h (viewTx Ex.wire Ex.env Ex.root) (by decide) (by decide)
+  revert this
+  decide
+
+/-! ### non-vacuity of target 4 -/
+
+example : Nuts.C07.Ex.exCfg.pageSize = cfg.pageSize := by decide
+example : xorOf (view Ex.wire Ex.env (run6 Ex.adm Ex.ds)) = 11 ^^^ 12 ∧ lcOf (view Ex.wire Ex.env (run6 Ex.adm Ex.ds)) = 1 ∧
+    ibltSet Nuts.C07.Ex.exCfg (view Ex.wire Ex.env (run6 Ex.adm Ex.ds)) 0 = [12, 11] := by decide
+example : addCheck (view Ex.wire Ex.env (run6 Ex.adm [.tx Ex.root none])) (viewTx Ex.wire Ex.env Ex.child) none = .added := by decide
+
+/-- C07's own two-node instance (`exA` holds the root, `exB` is one transaction ahead) IS the view of two C06 histories -/
+def c7root : C06.Tx := Ex.mk 1 0 [] 10
+def c7x : C06.Tx := Ex.mk 2 1 [1] 20
+example : Nuts.C07.Ex.exA.dag = view Ex.wire Ex.env (run6 Ex.adm [.tx c7root none]) ∧
+    Nuts.C07.Ex.exB.dag = view Ex.wire Ex.env (run6 Ex.adm [.tx c7x none, .tx c7root none, .tx c7x none]) := by decide
+example : ∀ t, t ∈ (roundPairs Nuts.C07.Ex.exCfg Nuts.C07.Ex.idealEnv { key := 0 } { key := 1 } 4 2
+      (Nuts.C07.Ex.exA, Nuts.C07.Ex.exB)).1.dag ↔ (t ∈ Nuts.C07.Ex.exA.dag ∨ t ∈ Nuts.C07.Ex.exB.dag) :=
+  (converges_for_admitted_dags
+    (Nuts.C07.Ex.fact_hyp 524288 30 Nuts.C07.Ex.idealEnv Nuts.C07.Ex.idealEnv_DC Nuts.C07.Ex.idealEnv_OrderOK)
+    Ex.adm Ex.wire [.tx c7root none] [.tx c7x none, .tx c7root none, .tx c7x none] Nuts.C07.Ex.exU (by decide) Nuts.C07.Ex.exXF
+    { key := 0 } { key := 1 } 4 (by decide) Nuts.C07.Ex.exA Nuts.C07.Ex.exB (by decide) (by decide)
+    Nuts.C07.Ex.exPairInv.nia Nuts.C07.Ex.exPairInv.nib Nuts.C07.Ex.exPairInv.ua Nuts.C07.Ex.exPairInv.ub
+    Nuts.C07.Ex.exPairInv.ra Nuts.C07.Ex.exPairInv.rb Nuts.C07.Ex.exPairInv.la Nuts.C07.Ex.exPairInv.lb 2 (by decide)).1
+
 end Nuts.Compose.Dag.Props
